@@ -40,6 +40,12 @@ CLAIMED = {
             "property-based testing (rapid): closed-formula and membership oracles on probe snapshots", "'Existing' reference criterion = criterion of the original or the current state."),
     "C19": ("Probed anchoring step: reference point as coefficient-weighted extreme, scaling, gain/loss mapping split at d > 0, inline formula with bounding and exact new - old report, zero functions identity, not-considered untouched unless asked; newCriterion formula with importance-weighted mean, observed range report, existing values untouched.",
             "property-based testing (rapid): closed-formula oracle on probe snapshots", "Elements of reported lists are matched by id, never by position. Exponential overflow of the documented formula is outside the numeric domain (skipped, counted)."),
+    "C09": ("Generated operation sequences (new request / an earlier request again) executed in one process with deep snapshots of every request value (incl. spare slice capacity) and the bytes of every returned result re-checked after every step; fully probed requests where every bias report and every state handed on is compared with the probe snapshot after the final method ran.",
+            "property-based testing (rapid): model-based history invariants + report-vs-snapshot oracle", "The sequence is generated up front as one shrinkable value (equivalent to rapid's state-machine mode, but replayable as a pure function)."),
+    "C10": ("Generated batches of 2..12 requests (duplicates, rejected ones, heuristics with generated level series) run by 1..4 goroutines each, 3 rounds, against the in-process handler of a -race build with GOMAXPROCS varied over shards; thorough also against a -race build of the real server process. Every concurrent response must equal the response of the same request decided alone; any race report or process death is a violation with the batch as replay.",
+            "property-based testing (rapid) of generated batches under the Go race detector", "Schedules are sampled, not enumerated; the race detector reports conflicting unsynchronised accesses on executed paths independent of timing. A data-race-free but order-dependent logic race is seen only if a sampled interleaving exposes it."),
+    "C20": ("Four-layer hostile generator (valid, constraint-level with 30 single-constraint operators, type-level subtree mutation, byte-level) against the in-process handler (watchdog, lowered max stack, current case kept on tmpfs so that a fatal crash becomes a replay) and the real server process (liveness after every request, known-good request re-checked); response-shape oracle, constraint mutants must be 400, unknown-name errors must list the registry, GET /api/preferenceFunctions schema per method.",
+            "property-based testing / fuzzing (rapid): structured hostile inputs + response-shape oracle + process liveness", "Bodies bounded (<= 64 KiB, small problems); resource exhaustion by size is out of scope (DESIGN.md §8)."),
 }
 
 NOT_YET = "check not built yet in this session (work in progress; to be claimed)"
